@@ -24,20 +24,20 @@ let string_of_n (n : coq_N) : string = Z.to_string (z_of_n n)
 
 let unhex (s : string) : string =
   if s = "-" then ""
-  else String.init (String.length s / 2) (fun i -> Char.chr (int_of_string ("0x" ^ String.sub s (2 * i) 2)))
+  else Stdlib.String.init (Stdlib.String.length s / 2) (fun i -> Stdlib.Char.chr (int_of_string ("0x" ^ Stdlib.String.sub s (2 * i) 2)))
 
 let hex (s : string) : string =
   if s = "" then "-"
-  else String.concat "" (List.map (fun c -> Printf.sprintf "%02x" (Char.code c)) (List.of_seq (String.to_seq s)))
+  else Stdlib.String.concat "" (Stdlib.List.map (fun c -> Stdlib.Printf.sprintf "%02x" (Stdlib.Char.code c)) (Stdlib.List.of_seq (Stdlib.String.to_seq s)))
 
 (* byte lists as the model sees them: list of N *)
 let bytes_of_hex (s : string) : coq_N list =
   let b = unhex s in
-  List.init (String.length b) (fun i -> n_of_int (Char.code b.[i]))
+  Stdlib.List.init (Stdlib.String.length b) (fun i -> n_of_int (Stdlib.Char.code b.[i]))
 
 let hex_of_bytes (l : coq_N list) : string =
   if l = [] then "-"
-  else String.concat "" (List.map (fun n -> Printf.sprintf "%02x" (int_of_n n)) l)
+  else Stdlib.String.concat "" (Stdlib.List.map (fun n -> Stdlib.Printf.sprintf "%02x" (int_of_n n)) l)
 
 let words (line : string) : string list =
-  List.filter (fun w -> w <> "") (String.split_on_char ' ' line)
+  Stdlib.List.filter (fun w -> w <> "") (Stdlib.String.split_on_char ' ' line)
